@@ -1,6 +1,8 @@
 import NmVerif.Eval.Eval
 import NmVerif.Lemmas.Addressing
 import NmVerif.Props.C01
+import NmVerif.Props.C07
+import NmVerif.Props.C08
 /-
   C10 — Eager evaluation returns exactly the lazy view; composition is unobservable.
 -/
@@ -121,10 +123,318 @@ theorem eval_compose [Inhabited α] (cm cm' : Bool) (outer : IxView) (inner : Ar
   have h2 := evalFresh_equiv cm' (outer.apply inner fill) hd
   exact h1.trans ((compose_unobservable cm outer inner fill hs hsrc hb).trans h2.symm)
 
+/-- a supplied output of the right shape denotes the view afterwards, whatever its layout and previous contents -/
+theorem evalInto_equiv [Inhabited α] (out : NDA α) (v : Arr α) (hw : out.WF) (hsh : out.shape = v.shape) (hs : Pos v.shape) :
+    (evalInto out v).toArr.Equiv v := by
+  have h0 := (evalInto_eq_view out v hw hsh hs (ndindex v.shape 0) (indices_inShape hs 0)).1
+  refine ⟨h0, ?_⟩
+  intro i hi
+  have hi' : InShape i v.shape := by simpa [NDA.toArr, h0] using hi
+  simp [NDA.toArr, (evalInto_eq_view out v hw hsh hs i hi').2]
+
+theorem fold_copy_layout (v : Arr α) (s : Shape) (l : List Nat) (o : NDA α) :
+    (l.foldl (copyStep v s) o).shape = o.shape ∧ (l.foldl (copyStep v s) o).colMajor = o.colMajor ∧
+    (l.foldl (copyStep v s) o).data.length = o.data.length := by
+  induction l generalizing o with
+  | nil => simp
+  | cons i is ih =>
+    simp only [List.foldl_cons]
+    have h := copyStep_shape v s o i
+    have := ih (copyStep v s o i)
+    exact ⟨this.1.trans h.1, this.2.1.trans h.2.1, this.2.2.trans h.2.2⟩
+
+/-- the result keeps the layout and the element count of the output it was given: the buffer of a fixed / bounded /
+    dynamic output is never re-allocated or clipped by the copy loop -/
+theorem evalInto_layout (out : NDA α) (v : Arr α) :
+    (evalInto out v).shape = out.shape ∧ (evalInto out v).colMajor = out.colMajor ∧
+    (evalInto out v).data.length = out.data.length := by
+  unfold evalInto
+  split
+  · exact fold_copy_layout v v.shape _ out
+  · simp
+
+/-- the library-allocated result is well formed (buffer length = product of the view's shape): nothing was clipped -/
+theorem evalFresh_wf [Inhabited α] (cm : Bool) (v : Arr α) : (evalFresh cm v).WF ∧ (evalFresh cm v).colMajor = cm := by
+  unfold evalFresh
+  have h := evalInto_layout ({ shape := v.shape, colMajor := cm, data := List.replicate (prod v.shape) default } : NDA α) v
+  simp only [NDA.WF]
+  refine ⟨?_, h.2.1⟩
+  rw [h.2.2, h.1]; simp
+
+/-- maybe-typed views: the evaluation is empty exactly when the view is, and otherwise is the evaluation of the value -/
+theorem eval_none_iff_view_none [Inhabited α] (cm : Bool) (ov : Option (Arr α)) :
+    (evalMaybe cm ov = none ↔ ov = none) ∧ ∀ v, ov = some v → evalMaybe cm ov = some (evalFresh cm v) := by
+  cases ov <;> simp [evalMaybe]
+
+/-! ### congruence of the non-indexing view kinds (models of C07 / C08) -/
+
+private theorem bav2_views {sa sb : Shape} {vs : List IxView} (h : broadcastArraysViews [sa, sb] = some vs) :
+    ∃ r va vb, vs = [va, vb] ∧ broadcastToView sa r = some va ∧ broadcastToView sb r = some vb := by
+  unfold broadcastArraysViews at h
+  simp only [Option.bind_eq_some_iff] at h
+  obtain ⟨r, _, hvs⟩ := h
+  simp only [List.mapM_cons, List.mapM_nil, Option.bind_eq_bind, Option.bind_eq_some_iff, Option.pure_def,
+    Option.some.injEq] at hvs
+  obtain ⟨va, hva, ys, ⟨vb, hvb, zs, hzs, rfl⟩, rfl⟩ := hvs
+  subst hzs
+  exact ⟨r, va, vb, rfl, hva, hvb⟩
+
+/-- a broadcasting binary ufunc reads each operand inside its own shape -/
+theorem ufunc2_reads_inShape {β γ : Type} (op : α → β → γ) (a : Arr α) (b : Arr β) (u : Arr (Option γ))
+    (h : ufunc2 op a b = some u) (d : Idx) (hd : InShape d u.shape) :
+    InShape (specBroadcastIdx a.shape d) a.shape ∧ InShape (specBroadcastIdx b.shape d) b.shape := by
+  unfold ufunc2 at h
+  simp only [Option.bind_eq_some_iff] at h
+  obtain ⟨vs, hvs, h⟩ := h
+  obtain ⟨r, va, vb, rfl, hva, hvb⟩ := bav2_views hvs
+  simp only [Option.some.injEq] at h
+  subst h
+  obtain ⟨hsa, hda⟩ := C06.broadcastTo_shape _ _ _ hva
+  obtain ⟨hsb, hdb⟩ := C06.broadcastTo_shape _ _ _ hvb
+  simp only at hd
+  have hdr : InShape d r := hda ▸ hd
+  constructor
+  · have := C06.broadcastTo_inBounds _ _ _ hva d hd _ (C06.broadcastTo_index_eq_spec _ _ _ hva d hdr)
+    rwa [hsa] at this
+  · have := C06.broadcastTo_inBounds _ _ _ hvb d (hdb ▸ hdr) _ (C06.broadcastTo_index_eq_spec _ _ _ hvb d hdr)
+    rwa [hsb] at this
+
+/-- binary broadcasting ufunc (`view::add`, `multiply`, …): equivalent operands give the same Nothing-ness and
+    equivalent results -/
+theorem ufunc2_congr {β γ : Type} (op : α → β → γ) (a a' : Arr α) (b b' : Arr β) (ha : a.Equiv a') (hb : b.Equiv b') :
+    (ufunc2 op a b = none ↔ ufunc2 op a' b' = none) ∧
+    ∀ u u', ufunc2 op a b = some u → ufunc2 op a' b' = some u' → u.Equiv u' := by
+  have hsa := ha.1
+  have hsb := hb.1
+  constructor
+  · unfold ufunc2; rw [hsa, hsb]
+    cases broadcastArraysViews [a'.shape, b'.shape] with
+    | none => simp
+    | some vs =>
+      match vs with
+      | [va, vb] => simp
+      | [] => simp
+      | [_] => simp
+      | _ :: _ :: _ :: _ => simp
+  · intro u u' hu hu'
+    obtain ⟨h1, h2⟩ := C07.ufunc2_spec op a b u hu
+    obtain ⟨h1', h2'⟩ := C07.ufunc2_spec op a' b' u' hu'
+    rw [hsa, hsb, h1'] at h1
+    have hsh : u.shape = u'.shape := (Option.some.inj h1).symm
+    refine ⟨hsh, fun d hd => ?_⟩
+    obtain ⟨hia, hib⟩ := ufunc2_reads_inShape op a b u hu d hd
+    rw [h2 d hd, h2' d (hsh ▸ hd), ← hsa, ← hsb, ha.2 _ hia, hb.2 _ hib]
+
+private theorem bav3_views {sa sb sc : Shape} {vs : List IxView} (h : broadcastArraysViews [sa, sb, sc] = some vs) :
+    ∃ r va vb vc, vs = [va, vb, vc] ∧ broadcastToView sa r = some va ∧ broadcastToView sb r = some vb ∧
+      broadcastToView sc r = some vc := by
+  unfold broadcastArraysViews at h
+  simp only [Option.bind_eq_some_iff] at h
+  obtain ⟨r, _, hvs⟩ := h
+  simp only [List.mapM_cons, List.mapM_nil, Option.bind_eq_bind, Option.bind_eq_some_iff, Option.pure_def,
+    Option.some.injEq] at hvs
+  obtain ⟨va, hva, ys, ⟨vb, hvb, zs, ⟨vc, hvc, ws, hws, rfl⟩, rfl⟩, rfl⟩ := hvs
+  subst hws
+  exact ⟨r, va, vb, vc, rfl, hva, hvb, hvc⟩
+
+/-- a broadcasting ternary ufunc (`view::where`) reads each operand inside its own shape -/
+theorem ufunc3_reads_inShape {β γ δ : Type} (op : α → β → γ → δ) (a : Arr α) (b : Arr β) (c : Arr γ) (u : Arr (Option δ))
+    (h : ufunc3 op a b c = some u) (d : Idx) (hd : InShape d u.shape) :
+    InShape (specBroadcastIdx a.shape d) a.shape ∧ InShape (specBroadcastIdx b.shape d) b.shape ∧
+    InShape (specBroadcastIdx c.shape d) c.shape := by
+  unfold ufunc3 at h
+  simp only [Option.bind_eq_some_iff] at h
+  obtain ⟨vs, hvs, h⟩ := h
+  obtain ⟨r, va, vb, vc, rfl, hva, hvb, hvc⟩ := bav3_views hvs
+  simp only [Option.some.injEq] at h
+  subst h
+  obtain ⟨hsa, hda⟩ := C06.broadcastTo_shape _ _ _ hva
+  obtain ⟨hsb, hdb⟩ := C06.broadcastTo_shape _ _ _ hvb
+  obtain ⟨hsc, hdc⟩ := C06.broadcastTo_shape _ _ _ hvc
+  simp only at hd
+  have hdr : InShape d r := hda ▸ hd
+  refine ⟨?_, ?_, ?_⟩
+  · have := C06.broadcastTo_inBounds _ _ _ hva d hd _ (C06.broadcastTo_index_eq_spec _ _ _ hva d hdr)
+    rwa [hsa] at this
+  · have := C06.broadcastTo_inBounds _ _ _ hvb d (hdb ▸ hdr) _ (C06.broadcastTo_index_eq_spec _ _ _ hvb d hdr)
+    rwa [hsb] at this
+  · have := C06.broadcastTo_inBounds _ _ _ hvc d (hdc ▸ hdr) _ (C06.broadcastTo_index_eq_spec _ _ _ hvc d hdr)
+    rwa [hsc] at this
+
+/-- ternary broadcasting ufunc (`view::where`): equivalent operands give the same Nothing-ness and equivalent results -/
+theorem ufunc3_congr {β γ δ : Type} (op : α → β → γ → δ) (a a' : Arr α) (b b' : Arr β) (c c' : Arr γ)
+    (ha : a.Equiv a') (hb : b.Equiv b') (hc : c.Equiv c') :
+    (ufunc3 op a b c = none ↔ ufunc3 op a' b' c' = none) ∧
+    ∀ u u', ufunc3 op a b c = some u → ufunc3 op a' b' c' = some u' → u.Equiv u' := by
+  have hsa := ha.1
+  have hsb := hb.1
+  have hsc := hc.1
+  constructor
+  · unfold ufunc3; rw [hsa, hsb, hsc]
+    cases broadcastArraysViews [a'.shape, b'.shape, c'.shape] with
+    | none => simp
+    | some vs =>
+      match vs with
+      | [va, vb, vc] => simp
+      | [] => simp
+      | [_] => simp
+      | [_, _] => simp
+      | _ :: _ :: _ :: _ :: _ => simp
+  · intro u u' hu hu'
+    obtain ⟨h1, h2⟩ := C07.ufunc3_spec op a b c u hu
+    obtain ⟨h1', h2'⟩ := C07.ufunc3_spec op a' b' c' u' hu'
+    rw [hsa, hsb, hsc, h1'] at h1
+    have hsh : u.shape = u'.shape := (Option.some.inj h1).symm
+    refine ⟨hsh, fun d hd => ?_⟩
+    obtain ⟨hia, hib, hic⟩ := ufunc3_reads_inShape op a b c u hu d hd
+    rw [h2 d hd, h2' d (hsh ▸ hd), ← hsa, ← hsb, ← hsc, ha.2 _ hia, hb.2 _ hib, hc.2 _ hic]
+
+/-- reductions (`view::sum`, `prod`, `amax`, … = `reduce`): equivalent operands give equivalent results -/
+theorem reduce_congr (op : α → α → α) (init : Option α) (a b : Arr α) (axis : Reduce.AxisArg) (keep : Bool)
+    (hab : a.Equiv b) (hs : Pos a.shape) (hv : Reduce.ValidAxes a.shape.length axis) :
+    ∃ u u', Reduce.reduce op init a axis keep = some u ∧ Reduce.reduce op init b axis keep = some u' ∧ u.Equiv u' := by
+  have hsh := hab.1
+  have hr := Reduce.removeDims_eq_spec a.shape axis keep hv
+  refine ⟨⟨Reduce.specShape a.shape (Reduce.axisSet a.shape.length axis) keep, Reduce.reduceElem op init a axis keep⟩,
+    ⟨Reduce.specShape a.shape (Reduce.axisSet a.shape.length axis) keep, Reduce.reduceElem op init b axis keep⟩,
+    by simp only [Reduce.reduce, hr, Option.map_some], by simp only [Reduce.reduce, ← hsh, hr, Option.map_some], rfl, ?_⟩
+  intro j hj
+  simp only at hj ⊢
+  rw [Reduce.reduceElem_eq_reads, Reduce.reduceElem_eq_reads, ← hsh]
+  obtain ⟨r, hrd, hin⟩ := C08.reduce_inBounds a.shape hs axis keep hv j hj
+  rw [hrd]
+  simp only [Option.bind_some]
+  congr 1
+  exact List.map_congr_left (fun i hi => hab.2 i (hin i hi))
+
+/-- accumulations (`view::cumsum`, `cumprod` = `accumulate`) along a valid axis -/
+theorem accumulate_congr (op : α → α → α) (a b : Arr α) (ax : Nat) (hab : a.Equiv b) (hax : ax < a.shape.length) :
+    (Reduce.accumulate op a (ax : Int)).Equiv (Reduce.accumulate op b (ax : Int)) := by
+  refine ⟨hab.1, fun d hd => ?_⟩
+  simp only [Reduce.accumulate] at hd ⊢
+  rw [Reduce.accumulateElem_eq_reads, Reduce.accumulateElem_eq_reads, ← hab.1]
+  obtain ⟨r, hrd, hin⟩ := C08.accumulate_inBounds a.shape ax hax d hd
+  rw [hrd]
+  simp only [Option.bind_some]
+  congr 1
+  exact List.map_congr_left (fun i hi => hab.2 i (hin i hi))
+
+/-! ### compositions of any depth -/
+
+/-- a well-formed composition has positive extents -/
+theorem denote_pos (e : Expr α) (hw : e.WF) : Pos e.denote.shape := by
+  induction e with
+  | leaf a => exact hw
+  | index w fill e _ => exact hw.2.2.2
+  | map f e ih => exact ih hw
+  | zip f e₁ e₂ ih₁ _ => exact ih₁ hw.1
+  | gather s r g e _ => exact hw.2.1
+  | gather2 s r₁ r₂ g e₁ e₂ _ _ => exact hw.2.2.1
+
+/-- COMPOSITION IS UNOBSERVABLE, any depth, any tree: evaluating an arbitrary set of sub-views to concrete arrays first
+    (any resolver layout) changes neither the shape nor any element of the composed view, and keeps it well formed -/
+theorem mat_unobservable [Inhabited α] (cm : Bool) (e e' : Expr α) (hm : Mat cm e e') (hw : e.WF) :
+    e'.denote.Equiv e.denote ∧ e'.WF := by
+  induction hm with
+  | leaf a => exact ⟨Arr.Equiv.refl _, hw⟩
+  | index w fill _ ih =>
+    obtain ⟨hwe, hsrc, hb, hp⟩ := hw
+    obtain ⟨he, hwe'⟩ := ih hwe
+    refine ⟨apply_congr w _ _ fill he (by rw [hsrc]; exact he.1.symm) hb, hwe', by rw [hsrc]; exact he.1.symm, hb, hp⟩
+  | map f _ ih =>
+    obtain ⟨he, hwe'⟩ := ih hw
+    exact ⟨map_congr f _ _ he, hwe'⟩
+  | zip f _ _ ih₁ ih₂ =>
+    obtain ⟨hw₁, hw₂, hsh⟩ := hw
+    obtain ⟨he₁, hw₁'⟩ := ih₁ hw₁
+    obtain ⟨he₂, hw₂'⟩ := ih₂ hw₂
+    refine ⟨⟨he₁.1, fun d hd => ?_⟩, hw₁', hw₂', by rw [he₁.1, he₂.1, hsh]⟩
+    simp only [Expr.denote] at hd ⊢
+    rw [he₁.2 d hd, he₂.2 d (by rw [he₂.1, ← hsh, ← he₁.1]; exact hd)]
+  | gather s r g _ ih =>
+    obtain ⟨hwe, hp, hin⟩ := hw
+    obtain ⟨he, hwe'⟩ := ih hwe
+    refine ⟨⟨rfl, fun d hd => ?_⟩, hwe', hp, fun d hd i hi => he.1 ▸ hin d hd i hi⟩
+    simp only [Expr.denote] at hd ⊢
+    congr 1
+    exact List.map_congr_left (fun i hi => he.2 i (he.1 ▸ hin d hd i hi))
+  | gather2 s r₁ r₂ g _ _ ih₁ ih₂ =>
+    obtain ⟨hw₁, hw₂, hp, hin₁, hin₂⟩ := hw
+    obtain ⟨he₁, hw₁'⟩ := ih₁ hw₁
+    obtain ⟨he₂, hw₂'⟩ := ih₂ hw₂
+    refine ⟨⟨rfl, fun d hd => ?_⟩, hw₁', hw₂', hp, fun d hd i hi => he₁.1 ▸ hin₁ d hd i hi,
+      fun d hd i hi => he₂.1 ▸ hin₂ d hd i hi⟩
+    simp only [Expr.denote] at hd ⊢
+    congr 1
+    · exact List.map_congr_left (fun i hi => he₁.2 i (he₁.1 ▸ hin₁ d hd i hi))
+    · exact List.map_congr_left (fun i hi => he₂.2 i (he₂.1 ▸ hin₂ d hd i hi))
+  | eval _ ih =>
+    obtain ⟨he, hwe'⟩ := ih hw
+    have hp := denote_pos _ hwe'
+    have hq := evalFresh_equiv cm _ hp
+    refine ⟨hq.trans he, ?_⟩
+    show Pos (evalFresh cm _).toArr.shape
+    rw [hq.1]; exact hp
+
+/-- … hence every evaluation strategy of one composition returns the same array: evaluate the whole lazy view once,
+    or evaluate any sub-views first and then the rest (resolver layouts `cm` for the inner, `cm'` for the final call) -/
+theorem eval_any_strategy [Inhabited α] (cm cm' : Bool) (e e' : Expr α) (hm : Mat cm e e') (hw : e.WF) :
+    (evalFresh cm' e'.denote).toArr.Equiv (evalFresh cm' e.denote).toArr := by
+  obtain ⟨he, hw'⟩ := mat_unobservable cm e e' hm hw
+  exact (evalFresh_equiv cm' _ (denote_pos _ hw')).trans (he.trans (evalFresh_equiv cm' _ (denote_pos _ hw)).symm)
+
 /-! non-vacuity -/
 example : (evalFresh true (Arr.iota [2,3])).data = [0,3,1,4,2,5] := by decide
 example : (evalFresh false (Arr.iota [2,3])).data = [0,1,2,3,4,5] := by decide
 example : (evalInto ({ shape := [3,2], colMajor := false, data := [9,9,9,9,9,9] } : NDA Nat) (Arr.iota [2,3])).data =
     [9,9,9,9,9,9] := by decide
+
+example : (evalInto ({ shape := [2,3], colMajor := true, data := [9,9,9,9,9,9] } : NDA Nat) (Arr.iota [2,3])).data =
+    [0,3,1,4,2,5] := by decide
+example : evalMaybe true (none : Option (Arr Nat)) = none := rfl
+example : (evalMaybe true (some (Arr.iota [2,3]))).map (·.data) = some [0,3,1,4,2,5] := by decide
+
+/-- transpose of a (3,2) operand, as an indexing view -/
+private def tr32 : IxView := ⟨[3,2], [2,3], fun d => match d with | [i, j] => some [j, i] | _ => none⟩
+private theorem tr32_inBounds : tr32.InBounds := by
+  intro d hd i hi
+  match d, hd with
+  | [x, y], hd =>
+    simp only [tr32, Option.some.injEq] at hi
+    subst hi
+    simp only [tr32, InShape] at hd ⊢
+    exact ⟨hd.2.1, hd.1, trivial⟩
+/-- `sum(add(transpose(a), b), axis=1)` over provenance leaves: a depth-3 binary tree -/
+private def demo : Expr Nat :=
+  .gather [2] (fun d => match d with | [i] => [[i,0],[i,1],[i,2]] | _ => []) List.sum
+    (.zip (· + ·) (.index tr32 0 (.leaf (Arr.iota [3,2]))) (.leaf ((Arr.iota [2,3]).map (· + 1000))))
+private theorem demo_wf : demo.WF := by
+  have h1 : Pos (Arr.iota [3,2]).shape := by decide
+  have h2 : Pos ((Arr.iota [2,3]).map (· + 1000)).shape := by decide
+  have h3 : Pos tr32.dst := by decide
+  have h4 : Pos [2] := by decide
+  refine ⟨⟨⟨h1, rfl, tr32_inBounds, h3⟩, h2, rfl⟩, h4, ?_⟩
+  intro d hd i hi
+  match d, hd with
+  | [x], hd =>
+    simp only [InShape] at hd
+    have hx : x < 2 := hd.1
+    simp only [List.mem_cons, List.not_mem_nil, or_false] at hi
+    rcases hi with rfl | rfl | rfl <;>
+      (simp only [Expr.denote, IxView.apply, tr32, InShape]; exact ⟨hx, by omega, trivial⟩)
+example : demo.denote.flat = [3009, 3021] := by decide
+/-- the same tree with the transpose evaluated to a column-major array first, then the sum evaluated -/
+example : ((evalFresh false (Expr.gather [2] (fun d => match d with | [i] => [[i,0],[i,1],[i,2]] | _ => []) List.sum
+    (.zip (· + ·) (.leaf (evalFresh true (Expr.index tr32 0 (.leaf (Arr.iota [3,2]))).denote).toArr)
+      (.leaf ((Arr.iota [2,3]).map (· + 1000))))).denote).data) = [3009, 3021] := by decide
+example : ∀ e', Mat true demo e' → (evalFresh false e'.denote).toArr.Equiv (evalFresh false demo.denote).toArr :=
+  fun e' hm => eval_any_strategy true false demo e' hm demo_wf
+example : (ufunc2 (· + ·) (Arr.iota [2,1]) (Arr.iota [3])).map (·.shape) = some [2,3] := by decide
+example : (ufunc2 (· + ·) (Arr.iota [2,3]) (Arr.iota [2])).isNone := by decide
+example : (Reduce.reduce (· + ·) none (Arr.iota [2,3]) (some [1]) true).map (fun u => (u.shape, u.get [1,0])) =
+    some ([2,1], some 12) := by decide
+example : Reduce.ValidAxes [2,3].length (some [1]) := by decide
+example : (ufunc3 (fun c x y => if c = 0 then y else x) (Arr.iota [3]) (Arr.iota [2,3]) (Arr.iota [1])).map
+    (fun u => (u.shape, u.get [1,0], u.get [1,2])) = some ([2,3], some 0, some 5) := by decide
 
 end NmVerif.Props.C10
